@@ -2,6 +2,7 @@
 // (ordinates as bit patterns x<16 hex digits> or decimal integers); doubles cross the boundary as bit patterns only.
 //   MP <scale> <v>*             PrecisionModel(scale).makePrecise(v) for every v          -> x<bits>*
 //   PM <scale>                  members after PrecisionModel(scale)                        -> <scale> <gridSize>
+//   HPP cx cy x y               HotPixel(Coordinate(cx,cy), 1.0).intersects(p)                -> 0 | 1
 //   HP cx cy p0x p0y p1x p1y    HotPixel(Coordinate(cx,cy), 1.0).intersects(p0, p1)       -> 0 | 1
 //   INT|UNI|DIF|SYM <g> | A | B GEOSIntersectionPrec_r ... GEOSSymDifferencePrec_r        -> OK v=<valid> p=<getPrecision bits> <geom> | EXC <msg>
 //   UUP <g> | A                 GEOSUnaryUnionPrec_r
@@ -142,6 +143,12 @@ int main() {
         if (c == "PM" && head.size() == 2) {
             geos::geom::PrecisionModel pm(ord(head[1]));
             printf("%s %s\n", hx(pm.scale).c_str(), hx(pm.gridSize).c_str()); fflush(stdout); continue;
+        }
+        if (c == "HPP" && head.size() == 5) {      // HPP cx cy x y : HotPixel(centre, 1.0).intersects(p)
+            geos::geom::Coordinate ctr(ord(head[1]), ord(head[2]));
+            geos::noding::snapround::HotPixel hp(ctr, 1.0);
+            geos::geom::CoordinateXY p(ord(head[3]), ord(head[4]));
+            printf("%d\n", hp.intersects(p) ? 1 : 0); fflush(stdout); continue;
         }
         if (c == "HP" && head.size() == 7) {
             geos::geom::Coordinate ctr(ord(head[1]), ord(head[2]));
